@@ -217,6 +217,18 @@ PROPS["C14"] = dict(
     assumptions=["metadata store versions are log indices >= 1 and compared only for existing keys (C13)", "table names contain no '/'"],
 )
 
+PROPS["C16"] = dict(
+    title="Invalid requests are rejected without effect; no request can crash a server",
+    design_ref="DESIGN.md section 7 (C16)",
+    run_files=["Run/C16Run.v"],
+    engines=[dict(cmd=["c16"], corr="Model.Validate.{range_status,put_status,del_status,txn_status,create_status,delete_status} <-> regattaserver.KVServer/TablesServer/ReadonlyTablesServer + table.ActiveTable validators", timeout=900)],
+    level_text="Theorems over all requests (reduced to the features the validators inspect): every documented constraint yields its status class, an accepted request satisfies all of them, and the key/value limits hold on every path that can create a record including operations nested in transactions. The real KVServer + table.ActiveTable (over a simulated Raft host with real state machines) and the tables servers are run on an enumerated grid of field combinations and a malformed stream; status codes are compared with the model, the table content is read back after every rejection, panics are caught and reported.",
+    level_note="PARTIAL: 'no request terminates the process' is exercised (enumerated grid + random garbage, panics caught), not proved - a theorem about total Gallina validators says nothing about Go panics. Requests are called on the server objects directly, not through a network listener (gRPC decoding is C18's codec). storage.Engine's table routing is re-implemented in the harness (three lines per method).",
+    technique="Coq proof (case analysis of the validator decision functions) + enumerated differential check of the real servers' status codes and effects",
+    trusted=["Model/Validate.v hand-written model of the validators in regattaserver/kv.go, tables.go and storage/table/table.go"],
+    assumptions=["a non-OK status is returned before anything is proposed (checked by reading the table back)"],
+)
+
 # Properties not (yet) claimed, each with a reason; kept current as checks are added.
 _PENDING = "check not built yet in this development; will be claimed once its model, theorems and correspondence harness exist"
 NOT_APPLICABLE = [dict(property_id="C%02d" % i, reason=_PENDING) for i in range(1, 20) if "C%02d" % i not in PROPS]
